@@ -257,7 +257,7 @@ def replay_state():
     """directories with different configurations formatted in one run, for several thread counts, against each directory formatted alone"""
     binp = common.native_build("default")
     body = "local function f(a)\n\tif a then\n\t\treturn {\n\t\t\tkey = a,\n\t\t\tother = function()\n\t\t\t\treturn 1\n\t\t\tend,\n\t\t}\n\tend\nend\n"
-    cfgs = {"d1": 'indent_type = "Spaces"\nindent_width = 2\n', "d2": 'indent_type = "Spaces"\nindent_width = 8\n', "d3": 'indent_type = "Tabs"\n',
+    cfgs = {"d1": 'indent_type = "Spaces"\nindent_width = 2\n', "d2": 'indent_type = "Spaces"\nindent_width = 8\n', "d3": 'indent_type = "Tabs"\nline_endings = "Windows"\n',
             "d4": 'indent_type = "Spaces"\nindent_width = 3\nquote_style = "AutoPreferSingle"\n'}
     files = {}
     for d_, c_ in cfgs.items():
